@@ -7,7 +7,7 @@ import torch
 from . import models, wq
 
 EVIDENCE = dict(
-    bounds="all parameters and the input symbolic; modules Linear(3,2), Linear(160,1) (automatic group size 32), Conv2d(1,2,2), LayerNorm+Linear, MLP; six weight qtypes; activations None/qint8 (quick) + qfloat8 (thorough); float32 (quick) + float16/bfloat16 (thorough); lifecycle histories of length <= 4 over {forward, calibrate, freeze, deepcopy, to(cpu)} (8 fixed histories in quick, 40 in thorough); partially frozen models: a two-layer MLP with one module frozen by hand before freeze(model) (3 histories)",
+    bounds="all parameters and the input symbolic; modules Linear(3,2), Linear(160,1) (automatic group size 32), Conv2d(1,2,2), LayerNorm+Linear, MLP; six weight qtypes; activations None/qint8 (quick) + qfloat8 (thorough); float32 (quick: every module kind) + float16/bfloat16 (thorough: every module kind; quick: Linear(3,2) with four histories); lifecycle histories of length <= 4 over {forward, calibrate, freeze, deepcopy, to(cpu)} (8 fixed histories in quick, 40 in thorough); partially frozen models: a two-layer MLP with one module frozen by hand before freeze(model) (3 histories)",
     outside="device moves to CUDA/MPS; architectures other than the enumerated ones (the architecture is enumerated, not solved); float16 deepcopy of packed payloads beyond these shapes",
     assumptions=[
         "ALG: two output tensors are bit-identical for every input when their element terms are identical (hash-consed terms over uninterpreted float operations: holds under any float semantics); when terms differ the disequality is asked in BIT and the model replayed",
@@ -60,6 +60,12 @@ def cases(tier, seed):
         for q in ALLQ if tier == "thorough" else ["qint8", "qint4", "qfloat8_e4m3fn"]:
             for a in acts[:2]:
                 out.append(dict(kind="mlp", dtype=dt, qtype=q, act=a, histories=HIST_PARTIAL))
+    if tier == "quick":
+        # half-precision modules (a dtype-specific freezing path rounds differently from the dynamic one): one module kind
+        for dt in ("float16", "bfloat16"):
+            for q in ALLQ:
+                for a in acts:
+                    out.append(dict(kind="linear", dtype=dt, qtype=q, act=a, histories=hs[:4]))
     return out
 
 
